@@ -7,6 +7,7 @@ import (
 	"os"
 	"path/filepath"
 	"regexp"
+	"sort"
 	"strings"
 )
 
@@ -882,6 +883,130 @@ func extractC05(c *ctxT) {
 		def("sendPoolParams", "List String", leanList(params("addToOutgoingPool")), "parameter names of addToOutgoingPool")
 		def("sendRecordFields", "List (String × String)", leanList(fields("addToOutgoingPool", "OutgoingTransferTx")), "(field, value) of the OutgoingTransferTx literal addToOutgoingPool stores")
 	}
+	// ---- origin of an entry (message / precompile) and the form of its refund ---------------------------------------
+	{
+		const pre = "x/crosschain/precompile"
+		callArgs := func(fd *ast.FuncDecl, callee string) ([]string, bool) {
+			var out []string
+			found := false
+			if fd != nil && fd.Body != nil {
+				ast.Inspect(fd.Body, func(n ast.Node) bool {
+					ce, ok := n.(*ast.CallExpr)
+					if !ok || found {
+						return true
+					}
+					if se, ok := ce.Fun.(*ast.SelectorExpr); ok && se.Sel.Name == callee {
+						found = true
+						for _, a := range ce.Args {
+							out = append(out, leanStr(strings.ReplaceAll(c.src(a), " ", "")))
+						}
+					}
+					return true
+				})
+			}
+			return out, found
+		}
+		paramsOf := func(fd *ast.FuncDecl) []string {
+			var out []string
+			if fd != nil {
+				for _, f := range fd.Type.Params.List {
+					for _, n := range f.Names {
+						out = append(out, leanStr(n.Name))
+					}
+				}
+			}
+			return out
+		}
+		// HandleOutgoingBridgeCallRefund: `if k.HasBridgeCallFromMsg(ctx, data.Nonce) { return … }` and only then the
+		// conversion of the refunded coins to ERC-20 (bridgeCallTransferTokens)
+		evmUnless := false
+		if fd := c.findFunc(c05Keeper, "Keeper", "HandleOutgoingBridgeCallRefund"); fd != nil && fd.Body != nil {
+			guardAt, convAt := -1, -1
+			for i, st := range fd.Body.List {
+				if ifs, ok := st.(*ast.IfStmt); ok && ifs.Init == nil {
+					cond := strings.ReplaceAll(c.src(ifs.Cond), " ", "")
+					if strings.HasPrefix(cond, "k.HasBridgeCallFromMsg(ctx,data.Nonce)") && len(ifs.Body.List) == 1 {
+						if _, isRet := ifs.Body.List[0].(*ast.ReturnStmt); isRet && guardAt < 0 {
+							guardAt = i
+						}
+					}
+				}
+				if callsNamed(c, st, "bridgeCallTransferTokens") && convAt < 0 {
+					convAt = i
+				}
+			}
+			evmUnless = guardAt >= 0 && convAt > guardAt
+		}
+		def("callRefundEvmUnlessFromMsg", "Bool", leanBool(evmUnless), "HandleOutgoingBridgeCallRefund converts the refunded coins to ERC-20 for the refund address unless the record is marked BridgeCallFromMsg (the guard returns before the conversion)")
+		dropsFromMsg := false
+		if fd := c.findFunc(c05Keeper, "Keeper", "DeleteOutgoingBridgeCallRecord"); fd != nil {
+			dropsFromMsg = callsNamed(c, fd.Body, "DeleteBridgeCallFromMsg")
+		}
+		def("deleteRecordDropsFromMsg", "Bool", leanBool(dropsFromMsg), "DeleteOutgoingBridgeCallRecord deletes the BridgeCallFromMsg mark")
+		// MsgServer.BridgeCall marks the nonce AddOutgoingBridgeCall returned
+		setsFromMsg := false
+		if fd := c.findFunc(c05Keeper, "MsgServer", "BridgeCall"); fd != nil {
+			if a, ok := callArgs(fd, "SetBridgeCallFromMsg"); ok && len(a) == 2 {
+				v := strings.Trim(a[1], "\"")
+				setsFromMsg = strings.Contains(strings.ReplaceAll(resolveLhs(c, fd, v), " ", ""), "AddOutgoingBridgeCall(")
+			}
+		}
+		def("msgBridgeCallSetsFromMsg", "Bool", leanBool(setsFromMsg), "MsgServer.BridgeCall marks the nonce returned by AddOutgoingBridgeCall as BridgeCallFromMsg")
+		preRun := c.findFunc(pre, "BridgeCallMethod", "Run")
+		def("precompileBridgeCallSetsFromMsg", "Bool", leanBool(preRun != nil && callsNamed(c, preRun.Body, "SetBridgeCallFromMsg")), "the bridgeCall precompile marks its record as BridgeCallFromMsg")
+		a1, _ := callArgs(preRun, "AddOutgoingBridgeCall")
+		def("bridgeCallPrecompileArgs", "List String", leanList(a1), "arguments BridgeCallMethod.Run passes to AddOutgoingBridgeCall")
+		// crossChain precompile: Run -> handlerCrossChain -> outgoingTransfer -> AddToOutgoingPool, then the relation
+		ccRun := c.findFunc(pre, "CrossChainMethod", "Run")
+		a2, _ := callArgs(ccRun, "handlerCrossChain")
+		def("sendPrecompileArgs", "List String", leanList(a2), "arguments CrossChainMethod.Run passes to handlerCrossChain")
+		hcc := c.findFunc(pre, "Keeper", "handlerCrossChain")
+		def("sendPrecompileHandlerParams", "List String", leanList(paramsOf(hcc)), "parameter names of handlerCrossChain")
+		a3, _ := callArgs(hcc, "outgoingTransfer")
+		def("sendPrecompileTransferArgs", "List String", leanList(a3), "arguments handlerCrossChain passes to outgoingTransfer")
+		ot := c.findFunc(pre, "Keeper", "outgoingTransfer")
+		def("sendPrecompileTransferParams", "List String", leanList(paramsOf(ot)), "parameter names of outgoingTransfer")
+		a4, _ := callArgs(ot, "AddToOutgoingPool")
+		def("sendPrecompilePoolArgs", "List String", leanList(a4), "arguments outgoingTransfer passes to AddToOutgoingPool")
+		setsRel := false
+		if ot != nil && ot.Body != nil {
+			for _, st := range ot.Body.List {
+				if ifs, ok := st.(*ast.IfStmt); ok && strings.ReplaceAll(c.src(ifs.Cond), " ", "") == "!originToken" {
+					if a, ok := callArgs(&ast.FuncDecl{Body: ifs.Body}, "SetOutgoingTransferRelation"); ok && len(a) == 3 {
+						v := strings.Trim(a[2], "\"")
+						setsRel = strings.Contains(strings.ReplaceAll(resolveLhs(c, ot, v), " ", ""), "AddToOutgoingPool(")
+					}
+				}
+			}
+		}
+		def("precompileSendSetsRelation", "Bool", leanBool(setsRel), "outgoingTransfer records an OutgoingTransferRelation for the id AddToOutgoingPool returned, unless the token is the origin token")
+		// cancel: handleCancelRefund -> handleOutgoingTransferRelation -> (relation exists) HookOutgoingRefund = ConvertCoin + delete relation
+		hook := false
+		if fd := c.findFunc(c05Keeper, "Keeper", "handleCancelRefund"); fd != nil && callsNamed(c, fd.Body, "handleOutgoingTransferRelation") {
+			if h := c.findFunc(c05Keeper, "Keeper", "handleOutgoingTransferRelation"); h != nil && h.Body != nil && len(h.Body.List) >= 2 {
+				guard := false
+				if ifs, ok := h.Body.List[0].(*ast.IfStmt); ok {
+					cond := strings.ReplaceAll(c.src(ifs.Cond), " ", "")
+					_, isRet := ifs.Body.List[len(ifs.Body.List)-1].(*ast.ReturnStmt)
+					guard = strings.HasPrefix(cond, "!k.erc20Keeper.HasOutgoingTransferRelation(ctx,k.moduleName,txId)") && isRet
+				}
+				if e := c.findFunc("x/erc20/keeper", "Keeper", "HookOutgoingRefund"); e != nil {
+					hook = guard && callsNamed(c, &ast.BlockStmt{List: h.Body.List[1:]}, "HookOutgoingRefund") &&
+						callsNamed(c, e.Body, "ConvertCoin") && callsNamed(c, e.Body, "DeleteOutgoingTransferRelation")
+				}
+			}
+		}
+		def("cancelRefundHook", "Bool", leanBool(hook), "a cancelled pool entry that has an OutgoingTransferRelation is refunded as ERC-20 (ConvertCoin for the sender) and the relation is deleted")
+		execDel := false
+		if fd := c.findFunc(c05Keeper, "Keeper", "OutgoingTxBatchExecuted"); fd != nil && fd.Body != nil {
+			for _, st := range fd.Body.List {
+				if rs, ok := st.(*ast.RangeStmt); ok && strings.ReplaceAll(c.src(rs.X), " ", "") == "batch.Transactions" {
+					execDel = execDel || callsNamed(c, rs.Body, "DeleteOutgoingTransferRelation")
+				}
+			}
+		}
+		def("executedDeletesRelation", "Bool", leanBool(execDel), "OutgoingTxBatchExecuted deletes the OutgoingTransferRelation of every transfer of the executed batch")
+	}
 	// ---- Solidity ----------------------------------------------------------------------------------------
 	{
 		bz, err := os.ReadFile(filepath.Join(c.repo, "solidity", "contracts", "bridge", "FxBridgeLogic.sol"))
@@ -922,6 +1047,105 @@ func extractC05(c *ctxT) {
 		once := strings.Contains(regexp.MustCompile(`\s+`).ReplaceAllString(sb3, ""), "require(!state_lastBridgeCallNonces[_nonceArray[1]],") &&
 			strings.Contains(regexp.MustCompile(`\s+`).ReplaceAllString(sb2, ""), "state_lastBridgeCallNonces[_nonceArray[1]]=true;")
 		def("solCallNonceOnce", "Bool", leanBool(once), "submitBridgeCall: a bridge-call nonce is accepted at most once")
+
+		// ---- the whole check-then-update program of the two submit functions, in source order ---------------------
+		// Every `require(cond, msg)`, the two state updates (`state_lastBatchNonces[token] = nonce`,
+		// `state_lastBridgeCallNonces[nonce] = true`), the signature check and the first value-moving statement are
+		// emitted as a statement list that the external-chain ghost (Model/C05Ext.lean) INTERPRETS; an internal
+		// function that is called (verifySubmitBridgeCall) is inlined at the call site.
+		sb.WriteString("/-- a quantity a `require` of the bridge contract compares -/\ninductive SolVar where | blockNumber | timeout | lastNonce | nonce | nonceUsed | power | threshold | other (src : String)\n  deriving DecidableEq, Repr\n\n")
+		sb.WriteString("/-- one statement of `submitBatch` / `submitBridgeCall`, as far as the ghost interprets it -/\ninductive SolStmt where\n  | require (lhs : SolVar) (op : Cmp) (rhs : SolVar)\n  | requireNot (v : SolVar)\n  | requireOther (src : String)\n  | setLastNonce\n  | setNonceUsed\n  | checkSignatures\n  | moveValue\n  deriving DecidableEq, Repr\n\n")
+		solVar := func(e string) string {
+			switch e {
+			case "block.number":
+				return ".blockNumber"
+			case "_batchTimeout", "_input.timeout":
+				return ".timeout"
+			case "state_lastBatchNonces[_tokenContract]":
+				return ".lastNonce"
+			case "_nonceArray[1]":
+				return ".nonce"
+			case "state_lastBridgeCallNonces[_nonceArray[1]]":
+				return ".nonceUsed"
+			case "cumulativePower":
+				return ".power"
+			case "_powerThreshold", "state_powerThreshold":
+				return ".threshold"
+			}
+			return "(.other " + leanStr(e) + ")"
+		}
+		ws := regexp.MustCompile(`\s+`)
+		var program func(name string, depth int) []string
+		program = func(name string, depth int) []string {
+			flat := ws.ReplaceAllString(regexp.MustCompile(`(?m)//.*$`).ReplaceAllString(fnBody(name), ""), "")
+			if i := strings.Index(flat, "{"); i >= 0 {
+				flat = flat[i:]
+			}
+			type item struct {
+				at   int
+				stms []string
+			}
+			var items []item
+			// require(...)
+			for _, m := range regexp.MustCompile(`require\(`).FindAllStringIndex(flat, -1) {
+				depthP, j := 1, m[1]
+				lastComma := -1
+				inStr := false
+				for ; j < len(flat) && depthP > 0; j++ {
+					switch ch := flat[j]; {
+					case ch == '"':
+						inStr = !inStr
+					case inStr:
+					case ch == '(' || ch == '[':
+						depthP++
+					case ch == ')' || ch == ']':
+						depthP--
+					case ch == ',' && depthP == 1:
+						lastComma = j
+					}
+				}
+				cond := flat[m[1] : j-1]
+				if lastComma > 0 {
+					cond = flat[m[1]:lastComma]
+				}
+				st := ""
+				if mm := regexp.MustCompile(`^([A-Za-z_.\[\]0-9]+)(<=|>=|<|>|==|!=)([A-Za-z_.\[\]0-9]+)$`).FindStringSubmatch(cond); mm != nil &&
+					!strings.HasPrefix(solVar(mm[1]), "(.other") && !strings.HasPrefix(solVar(mm[3]), "(.other") {
+					st = fmt.Sprintf(".require %s .%s %s", solVar(mm[1]), cmpFromText(mm[2]), solVar(mm[3]))
+				} else if strings.HasPrefix(cond, "!") && !strings.HasPrefix(solVar(cond[1:]), "(.other") {
+					st = ".requireNot " + solVar(cond[1:])
+				} else {
+					st = ".requireOther " + leanStr(cond)
+				}
+				items = append(items, item{m[0], []string{st}})
+			}
+			for _, m := range regexp.MustCompile(`state_lastBatchNonces\[_tokenContract\]=_nonceArray\[1\];`).FindAllStringIndex(flat, -1) {
+				items = append(items, item{m[0], []string{".setLastNonce"}})
+			}
+			for _, m := range regexp.MustCompile(`state_lastBridgeCallNonces\[_nonceArray\[1\]\]=true;`).FindAllStringIndex(flat, -1) {
+				items = append(items, item{m[0], []string{".setNonceUsed"}})
+			}
+			for _, m := range regexp.MustCompile(`checkOracleSignatures\(`).FindAllStringIndex(flat, -1) {
+				items = append(items, item{m[0], []string{".checkSignatures"}})
+			}
+			if m := regexp.MustCompile(`\.safeTransfer\(|\.mint\(|this\._transferAndBridgeCallback\(`).FindStringIndex(flat); m != nil {
+				items = append(items, item{m[0], []string{".moveValue"}})
+			}
+			if depth == 0 {
+				for _, m := range regexp.MustCompile(`verifySubmitBridgeCall\(`).FindAllStringIndex(flat, -1) {
+					items = append(items, item{m[0], program("verifySubmitBridgeCall", 1)})
+				}
+			}
+			sort.Slice(items, func(i, j int) bool { return items[i].at < items[j].at })
+			var out []string
+			for _, it := range items {
+				out = append(out, it.stms...)
+			}
+			return out
+		}
+		def("solSubmitBatch", "List SolStmt", leanList(program("submitBatch", 0)), "submitBatch of FxBridgeLogic.sol: requires, state update, signature check, first value-moving statement, in source order")
+		def("solSubmitBridgeCall", "List SolStmt", leanList(program("submitBridgeCall", 0)), "submitBridgeCall (verifySubmitBridgeCall inlined at its call site)")
+		def("solCheckSignatures", "List SolStmt", leanList(program("checkOracleSignatures", 1)), "checkOracleSignatures: its requires (the last one compares the cumulative power of the valid signatures with the threshold)")
 	}
 	sb.WriteString("end FxVerif.Gen.C05\n")
 	c.write("C05.lean", sb.String())
